@@ -37,6 +37,11 @@ def forked_check(solver, extra, seconds, symbols):
     if pid == 0:
         try:
             os.close(rd)
+            try:                                # die with the worker (PR_SET_PDEATHSIG, SIGKILL)
+                import ctypes
+                ctypes.CDLL('libc.so.6').prctl(1, 9)
+            except Exception:
+                pass
             solver.push()
             if extra:
                 solver.add(*extra)
